@@ -44,6 +44,7 @@ type iterState struct {
 	MapRef string
 	MapT   *types.Map
 	Seen   string // Array K Bool
+	Count  string // number of keys visited so far
 }
 
 type Snapshot struct {
@@ -346,13 +347,14 @@ type heapLeaf struct {
 	Elem string
 	Ref  bool
 	Tag  string
+	ArrRef bool
 	MapValRef string // for map value heaps whose values are references: the key sort
 }
 
 func heapLeaves(base string, t types.Type) []heapLeaf {
 	var out []heapLeaf
 	for _, l := range shapeOf(t) {
-		out = append(out, heapLeaf{Name: base + l.Name, Sort: arrSort(sInt, l.Sort), Elem: l.Sort, Ref: l.Ref, Tag: l.Tag})
+		out = append(out, heapLeaf{Name: base + l.Name, Sort: arrSort(sInt, l.Sort), Elem: l.Sort, Ref: l.Ref, Tag: l.Tag, ArrRef: l.ArrRef})
 	}
 	return out
 }
@@ -383,6 +385,10 @@ func (s *State) entryAlloc() string {
 
 // closureFact: every reference stored in heap version h is allocated w.r.t. alloc.
 func (s *State) closureFact(h string, hl heapLeaf, alloc string) {
+	if strings.HasPrefix(hl.Name, "mapcard<") {
+		s.assume(fmt.Sprintf("(forall ((r!c Int)) (! (and (<= 0 (select %s r!c)) (<= (select %s r!c) %s)) :pattern ((select %s r!c))))", h, h, maxLen, h))
+		return
+	}
 	if strings.HasSuffix(hl.Name, "$len") && hl.Elem == sInt {
 		s.assume(fmt.Sprintf("(forall ((r!c Int)) (! (and (<= 0 (select %s r!c)) (<= (select %s r!c) %s)) :pattern ((select %s r!c))))", h, h, maxLen, h))
 		return
@@ -394,6 +400,16 @@ func (s *State) closureFact(h string, hl heapLeaf, alloc string) {
 		}
 		s.assume(fmt.Sprintf("(forall ((r!c Int) (k!c %s)) (! (=> (< r!c %s) (and (<= 0 (select (select %s r!c) k!c)) (< (select (select %s r!c) k!c) %s) %s)) :pattern ((select (select %s r!c) k!c))))",
 			hl.MapValRef, alloc, h, h, alloc, ty, h))
+		return
+	}
+	if alloc != "" && hl.ArrRef && hl.Elem == arrSort(sInt, sInt) {
+		// slice-of-references field: every element is an allocated object of the element type
+		ty := "true"
+		if hl.Tag != "" {
+			ty = fmt.Sprintf("(or (= (select (select %s r!c) i!c) 0) (= (rtype (select (select %s r!c) i!c)) %s))", h, h, strLit(hl.Tag))
+		}
+		s.assume(fmt.Sprintf("(forall ((r!c Int) (i!c Int)) (! (=> (< r!c %s) (and (<= 0 (select (select %s r!c) i!c)) (< (select (select %s r!c) i!c) %s) %s)) :pattern ((select (select %s r!c) i!c))))",
+			alloc, h, h, alloc, ty, h))
 		return
 	}
 	if alloc == "" || !hl.Ref {
